@@ -10,8 +10,10 @@ import (
 	"testing"
 	"time"
 
+	"github.com/els0r/goProbe/v4/pkg/goDB"
 	"github.com/els0r/goProbe/v4/pkg/goDB/conditions/node"
 	"github.com/els0r/goProbe/v4/pkg/types"
+	"github.com/els0r/goProbe/v4/pkg/types/hashmap"
 	"pgregory.net/rapid"
 
 	"verifharness/internal/evid"
@@ -21,7 +23,7 @@ import (
 
 func TestMain(m *testing.M) {
 	evid.Rule("condition ASTs of depth ≤ 4 over all attributes and sugar (sip dip snet dnet dport proto; src dst host net port protocol ipproto), comparators (=,!= for addresses/networks; all six for dport/proto), " +
-		"values from the flow alphabet and near misses, networks of every prefix length 0–32 / 0–128 with host bits set or not; each AST is rendered, parsed and instrumented by node.ParseAndInstrument and evaluated on 8 generated IPv4/IPv6 keys built the way both callers build them " +
+		"values from the flow alphabet and near misses, networks of every prefix length 0–32 / 0–128 with host bits set or not; each AST is rendered, parsed and instrumented by node.ParseAndInstrument and evaluated on 8 generated IPv4/IPv6 keys built the way both callers build them, and the 8 flows are put through the live-query filter (goDB.QueryFilter, all four attributes) whose result must be exactly the selected flows " +
 		"(query worker: only the fields the condition references are populated; live filter: full flow key) and compared with the reference evaluator; key bytes must be unchanged afterwards; " +
 		"non-trivial = ≥ 2 leaves inspect the same field, or a network leaf is evaluated on a key of the other family, or a prefix length is not a multiple of 8; distinct by (rendered condition, keys)")
 	evid.Assume("reference semantics: '|' union, '&' intersection, '!' complement, a != v is the complement of a = v, an address/network comparison is true only for the same family and (for networks) when the masked prefix contains the address; sugar as in the help text",
@@ -187,6 +189,45 @@ func TestC09Evaluate(t *testing.T) {
 					t.Fatalf("%s", evid.Sig("C09:key-mutated", "%s: key bytes changed by the evaluation: %x -> %x", ctx, []byte(before), []byte(k)))
 				}
 			}
+		}
+		// the live-query filter itself (pkg/goDB/filter.go): the flows of the case as an in-memory flow map, all four
+		// attributes requested, so that the result is exactly the selected flows
+		attrList, sel, aerr := types.ParseQueryType("sip,dip,dport,proto")
+		if aerr != nil {
+			t.Fatalf("harness: %v", aerr)
+		}
+		in := hashmap.NewAggFlowMap()
+		want := map[string]bool{}
+		for _, f := range flows {
+			in.SetOrUpdate(keyOf(f), f.IsV4(), 1, 0, 1, 0)
+			if ok, _ := c.Eval(f); ok {
+				want[string(keyOf(f))] = true
+			}
+		}
+		var out *hashmap.AggFlowMap
+		func() {
+			defer func() {
+				if r := recover(); r != nil {
+					t.Fatalf("%s", evid.Sig("C09:panic", "condition %q: the live-query filter panics: %v", text, r))
+				}
+			}()
+			out = goDB.QueryFilter(goDB.NewQuery(attrList, n, sel))(in)
+		}()
+		got := map[string]bool{}
+		for it := out.PrimaryMap.Iter(); it.Next(); {
+			got[string(it.Key())] = true
+		}
+		for it := out.SecondaryMap.Iter(); it.Next(); {
+			got[string(it.Key())] = true
+		}
+		for _, f := range flows {
+			k := string(keyOf(f))
+			if got[k] != want[k] {
+				t.Fatalf("%s", evid.Sig("C09:filter-selection", "condition %q: the live-query filter (goDB.QueryFilter) selects flow %s = %v, want %v", text, f, got[k], want[k]))
+			}
+		}
+		if len(got) > len(want) {
+			t.Fatalf("%s", evid.Sig("C09:filter-selection", "condition %q: the live-query filter returns %d flows, %d of the %d flows of the case are selected", text, len(got), len(want), len(flows)))
 		}
 	})
 }
